@@ -13,7 +13,7 @@ func main() {
 	Main(&Prop{
 		Name:   "C01",
 		Header: pipe.Header + "Definition mm := mm01.\n",
-		Rule: "seeded random pipeline runs of the real batchers.OpenFilesToChan / OpenReaderToChan + extractor.New: 1-6 sources (temp files, one missing now and then; or one scripted reader with random chunking, injected read errors and 300 ms stalls that force the 250 ms time flush), 0-300 lines each incl. empty lines, CRLF, no trailing newline, one line longer than the 128 KiB read buffer; batch in {1,2,3,7,1000}, workers 1-8, readers 1-4, batch-buffer 1-4; matcher: oracle-checked 'colon' matcher (no match on '!', key before ':', ignore text after ':'); extract/ignore expressions over groups, names and literals. " +
+		Rule: "seeded random pipeline runs of the real batchers.OpenFilesToChan / OpenReaderToChan + extractor.New: 1-6 sources (temp files, one missing now and then, a quarter of the runs with gunzip on and about half of their files gzip-encoded [compress/gzip is an oracle: the model sees the decoded stream]; or one scripted reader with random chunking, injected read errors and 300 ms stalls that force the 250 ms time flush), 0-300 lines each incl. empty lines, CRLF, no trailing newline, one line longer than the 128 KiB read buffer; batch in {1,2,3,7,1000}, workers 1-8, readers 1-4, batch-buffer 1-4; matcher: oracle-checked 'colon' matcher (no match on '!', key before ':', ignore text after ':'); extract/ignore expressions over groups, names and literals. " +
 			"distinct = distinct (config, sources, expressions); non-trivial = at least one of: more lines than one batch, partial final batch, missing file, no trailing newline, CRLF, empty line, injected read error, time flush, line longer than the read buffer, several workers racing on several batches.",
 		Gen: func(r *Rng, n int, tier string) []Case {
 			return pipe.MakeCases(pipe.GenC01(r, n, tier), pipe.Workdir())
